@@ -944,6 +944,8 @@ func main() {
 	notAddresses(g.Fork())
 	// 10. one BtcAddr object re-used over time (history.go)
 	histStreams(g.Fork(), valid)
+	// 11. several callers at once, nothing shared (concurrent.go)
+	concStreams(g.Fork(), valid)
 
 	r.Assume = []string{
 		"SHA-256 and RIPEMD-160 are modelled (Lean executable versions validated here against Go's), theorems are parametric in them",
@@ -986,6 +988,26 @@ func replay(path string) {
 			}
 		}
 		checkHist("replay", toks)
+	case "conc":
+		replayConc(doc.Replay)
+	case "b58sched":
+		var args []string
+		if l, ok := doc.Replay["args"].([]interface{}); ok {
+			for _, x := range l {
+				s, _ := x.(string)
+				args = append(args, s)
+			}
+		}
+		mo := o.MustAsk("b58sched " + str("sched") + " " + strings.Join(args, " "))
+		var want []string
+		for _, a := range args {
+			want = append(want, vlib.Hex([]byte(btc.Encodeb58(vlib.UnHex(a)))))
+		}
+		if exp := "ok " + strings.Join(want, " "); mo != exp {
+			r.TieFail("tie-b58sched", fmt.Sprintf("step-level model gives %q, Encodeb58 gives %q", mo, exp), doc.Replay)
+		} else {
+			r.TieOK()
+		}
 	case "wifdec":
 		checkWifDec("replay", string(vlib.UnHex(str("string_hex"))))
 	case "wifenc":
